@@ -718,6 +718,9 @@ let mon_srv prop case impl =
      | "C12" ->
        check_downloads ();
        check_uploads ()
+     | "C01" ->
+       (* download fidelity at the server's level: what a conformant client reassembles is the file *)
+       check_downloads ()
      | "C13" ->
        let clean = not (has_flag flags 'k') in
        (* an accepted upload that the peer aborts with ERROR: removed (clean-on-error) or kept as a prefix (here: empty) *)
@@ -764,7 +767,7 @@ let mon_srv prop case impl =
            | _ -> ()) recs
      | _ -> ());
     match List.filter (fun m -> not (starts_with m "known:")) !fail, !fail with
-    | [], [] -> (if List.mem prop ["C02"; "C03"; "C05"; "C06"; "C09"; "C12"; "C13"; "C14"; "C16"] then "pass" else "skip")
+    | [], [] -> (if List.mem prop ["C01"; "C02"; "C03"; "C05"; "C06"; "C09"; "C12"; "C13"; "C14"; "C16"] then "pass" else "skip")
     | [], k :: _ -> k
     | m :: _, _ -> "fail:" ^ m
     end
@@ -1337,7 +1340,7 @@ let run_mon (line : string) : string =
                   else "fail:directory-options-do-not-configure-the-served-directories")
                else "skip"
              | "bin" :: "xfer" :: _ -> if prop = "C14" then (if impl = "res=0 same=1" then "pass" else "fail:binaries-do-not-interoperate-byte-exactly") else "skip"
-             | "conc" :: _ -> if prop = "C12" || prop = "C05" then mon_conc prop case impl else "skip"
+             | "conc" :: _ -> if prop = "C12" || prop = "C05" || prop = "C09" then mon_conc prop case impl else "skip"
              | "pair" :: _ -> if prop = "C04" || prop = "C14" || prop = "C16" then mon_pair prop case impl else "skip"
              | ["cfgperm"; _; _; _; groups; _] when prop = "C17" ->
                (match mon_cfgperm impl with
